@@ -2,6 +2,8 @@
    N/Z/positive/nat stay Coq datatypes; no Extract Constant). Run from the output dir. *)
 From Coq Require Import Extraction ExtrOcamlBasic.
 From KV Require Import Bytes WalCodec Memtable Engine.
+From KV Require Import ReadOnly.
+From KV Require Import ApiView.
 From KV Require Import Hist.
 Extraction Language OCaml.
 Set Extraction Output Directory ".".
@@ -15,4 +17,6 @@ Separate Extraction
   Memtable.mt_set_imm Memtable.mt_empty
   Engine.init Engine.put Engine.del Engine.apply_batch Engine.tx_commit Engine.get Engine.flush
   Engine.reopen Engine.run Engine.buffer_ops
+  ReadOnly.start ReadOnly.step_client ReadOnly.step_repl ReadOnly.node_get ReadOnly.tx_get
+  ReadOnly.node_scan ReadOnly.node_info ReadOnly.rw_open ReadOnly.any_open ApiView.api_view
   Hist.lin_check Hist.lin_verdicts.
